@@ -113,8 +113,33 @@ impl Stats {
             self.mids += d.mids;
             self.stale_wakes += d.wakes_stale;
             self.virtual_time += d.makespan.iter().sum::<u64>();
+            if d.vt_ok.iter().any(|&x| x) {
+                self.add("probe.runs_under_virtual_time_discipline", 1);
+            }
             for (k, v) in &d.fired {
                 self.add(&format!("fault.{k}"), *v);
+            }
+            // external events with no poll in between (late poll / multi-drop / burst)
+            let mut cur = 0usize;
+            let mut best = 0usize;
+            for st in &d.schedule {
+                match st.action {
+                    crate::spec::Action::Release(_) | crate::spec::Action::DropRef(_) => {
+                        cur += 1;
+                        best = best.max(cur);
+                    }
+                    crate::spec::Action::Poll => cur = 0,
+                    _ => {}
+                }
+            }
+            if best >= 2 {
+                self.add("fault.late_poll_2_or_more_events_between_polls", 1);
+            }
+            if best >= 8 {
+                self.add("fault.late_poll_8_or_more_events_between_polls", 1);
+            }
+            if best > 64 {
+                self.add("fault.late_poll_more_than_64_events_between_polls", 1);
             }
             for e in &d.events {
                 match e {
